@@ -172,7 +172,8 @@ def run_job(job):
                 cm = bool(m.is_countermodel_to(arg))
             except Exception as ex:  # noqa
                 cm = f'{type(ex).__name__}: {ex}'
-            ms.append(dict(bad=bad, countermodel=cm, quit=any(isinstance(n, FlagNode) and n.get('flag') == 'quit' for n in b)))
+            ms.append(dict(bad=bad, countermodel=cm, quit=any(isinstance(n, FlagNode) and n.get('flag') == 'quit' for n in b),
+                           branch=' ; '.join(wire.enc_node(n) for n in b), index=branch_index(tab, b)))
         out['models'] = ms
     out['t_run'] = round(_t.time() - _t0, 3)
     if observations:
